@@ -205,6 +205,9 @@ func (x *fx) oblige(kind, label, goal, desc string) *Oblig {
 		return nil
 	}
 	if kind == "safe" && x.c.NoPanicOff {
+		// nosafety: no obligation, but execution only continues past this point
+		// when the operation did not panic
+		x.assumeAt(x.curPC, goal)
 		return nil
 	}
 	key := kind + ":" + label
